@@ -117,8 +117,87 @@ class Ctx:
             json.dump({
                 "evaluations": self.evaluations, "sigs": sorted(self.sigs), "samples": self.samples,
                 "counters": counters, "violations": self.violations,
-                "violation_counts": self.violation_counts, "wall": self.elapsed(),
+                "violation_counts": self.violation_counts, "wall": self.elapsed(), "reach": getattr(self, "reach", {}),
             }, f, default=repr)
+
+
+# ---------------- reach accounting: which anchored lines did the workload execute? ----------------
+_reach = {}
+
+
+def anchor_files(pid):
+    root = os.path.dirname(os.path.dirname(os.path.abspath(__file__)))
+    files = []
+    try:
+        for line in open(os.path.join(root, "properties.jsonl")):
+            p = json.loads(line)
+            if p["id"] == pid:
+                files = p["anchors"]["files"]
+    except Exception:  # noqa: BLE001
+        return {}
+    out = {}
+    base = os.path.dirname(REPO_SRC.rstrip("/"))
+    for f in files:
+        path = os.path.join(base, f)
+        if os.path.isdir(path):
+            for name in sorted(os.listdir(path)):
+                if name.endswith(".py"):
+                    out[os.path.realpath(os.path.join(path, name))] = f.rstrip("/") + "/" + name
+        elif os.path.exists(path):
+            out[os.path.realpath(path)] = f
+    return out
+
+
+def start_reach(pid):
+    """sys.monitoring LINE events with DISABLE after the first hit of each line of the anchored files."""
+    mon = getattr(sys, "monitoring", None)
+    if mon is None or os.environ.get("VERIF_NO_REACH"):
+        return None
+    files = anchor_files(pid)
+    if not files:
+        return None
+    tool = mon.COVERAGE_ID
+    try:
+        mon.use_tool_id(tool, "vf-reach")
+    except ValueError:
+        return None
+    hits = {f: set() for f in files}
+    disable = mon.DISABLE
+
+    def on_line(code, line):
+        s = hits.get(code.co_filename)
+        if s is not None:
+            s.add(line)
+        return disable
+    mon.register_callback(tool, mon.events.LINE, on_line)
+    mon.set_events(tool, mon.events.LINE)
+    return files, hits
+
+
+def executable_lines(path):
+    try:
+        code = compile(open(path, encoding="utf-8").read(), path, "exec")
+    except Exception:  # noqa: BLE001
+        return set()
+    lines = set()
+    todo = [code]
+    while todo:
+        c = todo.pop()
+        if c.co_flags & 0x1:  # CO_OPTIMIZED: function bodies only (module and class bodies run at import, before monitoring)
+            lines.update(l for _, _, l in c.co_lines() if l)
+        todo.extend(k for k in c.co_consts if hasattr(k, "co_lines"))
+    return lines
+
+
+def reach_report(state):
+    if not state:
+        return {}
+    files, hits = state
+    out = {}
+    for path, rel in files.items():
+        ex = executable_lines(path)
+        out[rel] = {"lines_hit": sorted(hits[path] & ex) if ex else sorted(hits[path]), "executable": len(ex)}
+    return out
 
 
 def main():
@@ -127,11 +206,13 @@ def main():
     sys.setrecursionlimit(max(sys.getrecursionlimit(), 1000))
     mod = importlib.import_module(f"vf.checks.{pid.lower()}")
     ctx = Ctx(pid, tier, int(seed), int(shard), int(nshards), float(scale))
+    reach = start_reach(pid)
     try:
         mod.run_shard(ctx)
     except BaseException:  # a crash of the harness itself is a broken shard, not a verdict
         traceback.print_exc()
         sys.exit(70)
+    ctx.reach = reach_report(reach)
     ctx.dump(out)
 
 
